@@ -154,7 +154,12 @@ def load(data, ignore, traced=False):
 
     class Traced(Held):
         def handleError(self, error):
-            trace.append([exc_code(error), [len(getattr(self, a)) for a in LIBS]])
+            # what is in the libraries when the error is handed over (element indices)
+            if not hasattr(self, '_verif_idx'):
+                self._verif_idx = elem_index(self)
+            trace.append([exc_code(error),
+                          [[self._verif_idx.get(id(getattr(o, 'xmlnode', None)), 10 ** 6) for o in getattr(self, a)]
+                           for a in LIBS]])
             return super(Traced, self).handleError(error)
 
     cls = Traced if traced else Held
@@ -187,25 +192,23 @@ def load(data, ignore, traced=False):
 
 
 def events_of(tr):
-    """event trace of the full-mask run: objects appended between consecutive handleError calls,
-    then the error; libraries only ever grow by appending, so the contents at the time of an error
-    are prefixes of the final contents"""
-    col = tr['col']
-    final = {a: [] for a in LIBS}
+    """event trace of the full-mask run: the objects that appeared in the libraries between
+    consecutive handleError calls, then the error; finally whatever was loaded after the last one"""
+    seen = {a: set() for a in LIBS}
+    ev = []
+    for code, snap in tr['trace']:
+        for i, a in enumerate(LIBS):
+            for u in snap[i]:
+                if u not in seen[a]:
+                    seen[a].add(u)
+                    ev.append(['ok', LIBCODE[a], u])
+        ev.append(['err', code])
     for lc, u in tr['loaded']:
         if lc <= 10:
-            final[LIBS[lc - 1]].append(u)
-    prev = [0] * len(LIBS)
-    ev = []
-    for code, lens in tr['trace']:
-        for i, a in enumerate(LIBS):
-            for u in final[a][prev[i]:lens[i]]:
-                ev.append(['ok', LIBCODE[a], u])
-        prev = [max(p, l) for p, l in zip(prev, lens)]
-        ev.append(['err', code])
-    for i, a in enumerate(LIBS):
-        for u in final[a][prev[i]:]:
-            ev.append(['ok', LIBCODE[a], u])
+            a = LIBS[lc - 1]
+            if u not in seen[a]:
+                seen[a].add(u)
+                ev.append(['ok', lc, u])
     for lc, u in tr['loaded']:
         if lc == 11:
             ev.append(['ok', 11, u])
